@@ -63,7 +63,45 @@ structure Cfg where
   router : IP
   net1 : Subnet
   net2 : Subnet
-  deriving Repr
+  deriving DecidableEq, Repr
+
+/-! ### `Config.New`: where the two subnets come from -/
+
+/-- what `Config.New` builds the handler from: the operating mode, the NIC information of the session (host and
+    router address, home LAN prefix) and the configuration (netfilter prefix `NetfilterIP` — its ADDRESS is our address
+    on the netfilter subnet —, the DNS server for clients that are not captured; `none` = not configured) -/
+structure NewCfg where
+  mode : Mode
+  host : IP
+  router : IP
+  homeLan : IP
+  homeBits : Nat
+  nfAddr : IP
+  nfBits : Nat
+  dns : Option IP
+  deriving DecidableEq, Repr
+
+/-- `packet.DNSv4CloudFlareFamily1` = 1.1.1.3 -/
+def familyDNS : IP := 16843011
+
+/-- `newSubnet` on a configuration without FirstIP and Duration: masked prefix, first address after the network
+    address, four hours -/
+def mkSubnet (lan : IP) (bits : Nat) (gw dns server : IP) : Subnet :=
+  let l := lan / 2 ^ (32 - bits) * 2 ^ (32 - bits)
+  { lan := l, bits := bits, gw := gw, dns := dns, server := server, first := l + 1, dur := 14400 }
+
+/-- the two validations of the netfilter prefix in `Config.New`: its address lies in the home LAN and (fix ebe424c) its
+    prefix is not shorter than the home prefix, i.e. the netfilter LAN is a subnet of the home LAN -/
+def NewCfg.accepted (n : NewCfg) : Bool :=
+  n.nfAddr / 2 ^ (32 - n.homeBits) == n.homeLan / 2 ^ (32 - n.homeBits) && decide (n.homeBits ≤ n.nfBits)
+
+/-- the configuration `Config.New` constructs (empty lease file or reset): home subnet = home LAN with the REAL router as
+    gateway and the configured DNS server (the router when none is configured); netfilter subnet = the netfilter prefix
+    with OUR netfilter address as gateway and the family DNS server; we are the DHCP server of both -/
+def mkCfg (n : NewCfg) : Cfg :=
+  { mode := n.mode, host := n.host, router := n.router,
+    net1 := mkSubnet n.homeLan n.homeBits n.router (n.dns.getD n.router) n.host,
+    net2 := mkSubnet n.nfAddr n.nfBits n.nfAddr familyDNS n.host }
 
 def Cfg.sub (cfg : Cfg) : SubId → Subnet
   | .net1 => cfg.net1
